@@ -1,2 +1,865 @@
-"""roaring64 suites (registered with genlib.suite)."""
+"""roaring64 suites (registered with genlib.suite): `r64` (C17) and `ser64` (C18).
+
+Grammar of the roaring64 command family (harness/r64.go <-> lean/RModel/Driver/R64.lean).
+Values are decimal uint64.  `D(x)` = digest of x computed from the raw representation.
+
+  new64 x | of64 x v.. | addmany64 x v..              -> D(x)
+  clone64 y x | cowclone64 y x                          -> D(y) D(x)          (cowclone = SetCopyOnWrite(true)+Clone)
+  setcow64 x 0|1                                        -> true|false         (GetCopyOnWrite after the call)
+  detach64 x | opt64 x | clear64 x | dig64 x            -> D(x)
+  add64 x v | addint64 x v | rem64 x v                  -> D(x)
+  cadd64 x v | crem64 x v                               -> true|false D(x)
+  addr64 x s e | remr64 x s e | flip64 x s e | flipint64 x s e   -> D(x)       ([s,e), e <= 2^64-1, s>=e is a no-op)
+  sflip64 y x s e                                       -> D(y) D(x)
+  and64|or64|xor64|andnot64 y a b                       -> D(y) D(a) D(b)
+  iand64|ior64|ixor64|iandnot64 a b                     -> D(a) D(b)
+  andcard64|orcard64 a b -> n      isect64|eq64 a b -> bool
+  card64 x -> n | empty64 x -> bool | has64|hasint64 x v -> bool | min64|max64 x -> v | rank64 x v -> n
+  sel64 x i -> v|err | toarr64 x -> "n D"|toobig (n > 2^22) | str64 x -> "n D"|toobig (n > 4096)
+  dump64 x -> lo-hi,v,..|-   wf64 x -> ok|err:<why>   runs64 x -> true   stats64 x -> "card true"
+  fastor64 y a.. | fastand64 y a.. | paror64 y w a..    -> D(y) args=same|args=mut D(a)..
+  as64 y x32                                            -> D(y) D32(x32)      (Roaring32AsRoaring64 of a clone)
+  it64|rit64|mit64 i x -> ok | hasnext64 i -> bool | next64 i -> v|end | peek64 i -> v|end
+  adv64 i m -> v|end (state after AdvanceIfNeeded) | many64 i n -> "k D" | drain64 i n -> "k D" | seq64 x fwd|rev n -> "k D"
+  ser64 x        -> len(ToBytes) GetSerializedSizeInBytes n(WriteTo) writeto==tobytes marshal==tobytes base64==tobytes
+  hex64 x        -> hex of ToBytes | toobig           (checked by the Lean reading of the format specification)
+  rd64 y <entry> x [extra=<k>] [reuse]  -> D(y) n|- len consumed|- wf       entry: readfrom|readfrom1|fromunsafe|unmarshal|base64
+                                           (readfrom1 = ReadFrom through a one-byte-per-Read reader)
+  bufchk64 y                            -> ok | modified@<off>   (the buffer given to FromUnsafeBytes for y is untouched)
+  reit64 i x                            -> ok          (Initialize the existing iterator object i on bitmap x)
+  dec64 y <entry> <hex> [reuse]         -> ok n|- <wf> <dump> | err | panic:.. | fatal:..   (y defined iff ok and wf=ok)
+  trunc64 x <entry>                     -> allerr | ok@<k|-> panic@<k|-> | toobig
+  alias64 x..                           -> ok | same:<a>=<b> | shared:<a>/<b>@<key>   (an inner bitmap reachable from two
+                                           distinct objects must be flagged copy-on-write in both)
+  lenient64 runsize                     -> ok          (wf tolerates ErrRunIntervalSize from now on, see F7)
+  cor64 x <entry> <field> <value>       -> ok n|- valid|invalid | err | panic:.. | fatal:..
+        field: count | key:<i> | cookie:<i> | isize:<i> | byte:<off>
+
+Environment variable R64_AVOID (comma separated, or "all") removes the script shapes that hit the defects already
+recorded in FINDINGS.md, so that the rest of the family can be shown to agree:
+  sflip    static Flip over more than one bucket          (F1)
+  ixor     mutation after in-place Xor / self Xor          (F3, F4)
+  paror    ParOr aliasing / argument compaction            (F2)
+  as64e    Roaring32AsRoaring64 of an empty bitmap         (F6)
+  count    corrupt bucket counts above the stream length   (F5)
+  runsize  emits `lenient64 runsize` first: wf tolerates Validate()'s "too many intervals relative to data" (F7)
+"""
+import os
+import struct
 from genlib import G, suite, U32, CH  # noqa: F401
+
+B32 = 1 << 32
+U64 = 1 << 64
+MAXV = U64 - 1
+
+_av = os.environ.get("R64_AVOID", "")
+AVOID = set(x for x in _av.split(",") if x)
+if "all" in AVOID:
+    AVOID = {"sflip", "ixor", "paror", "as64e", "count", "runsize"}
+
+BUCKET_GROUPS = [[0, 1, 2], [0, 1], [1, 2, 3], [0x7FFFFFFF, 0x80000000], [0x80000000, 0x80000001],
+                 [0xFFFFFFFE, 0xFFFFFFFF], [0xFFFFFFFF], [0], [0, 0xFFFFFFFF], [1, 0x80000000, 0xFFFFFFFF],
+                 [0, 2, 4], [5, 6, 7, 8]]
+LOWS = [0, 1, 2, 63, 64, 4095, 4096, 65535, 65536, 65537, 131071, 131072, 0x7FFFFFFF, 0x80000000, 0xFFFF0000,
+        0xFFFFFFFE, 0xFFFFFFFF, 0xFFFFFFFD]
+
+
+class R:
+    """helper bound to a genlib.G"""
+
+    def __init__(self, g, scale):
+        self.g = g
+        self.r = g.r
+        self.wide = int(10 * scale) + 2   # budget of operations that create / flip whole buckets (slow in Go)
+
+    # ------------------------------------------------------------------ values
+    def homes(self):
+        r = self.r
+        c = r.random()
+        if c < 0.8:
+            hs = list(r.choice(BUCKET_GROUPS))
+        else:
+            b = r.randrange(0, 0xFFFFFFFF)
+            hs = [b, b + 1] if r.random() < 0.5 else [b]
+        self.g.count("homes:%d" % len(hs))
+        return hs
+
+    def anchors(self):
+        r = self.r
+        return [r.choice(LOWS), r.choice(LOWS), r.randrange(B32)]
+
+    def low(self, anchors):
+        r = self.r
+        c = r.random()
+        if c < 0.3:
+            return r.choice(LOWS)
+        if c < 0.85 and anchors:
+            a = r.choice(anchors)
+            return max(0, min(B32 - 1, a + r.randrange(-40, 41)))
+        if c < 0.93 and anchors:
+            a = r.choice(anchors)
+            return max(0, min(B32 - 1, a + r.randrange(-70000, 70001)))
+        return r.randrange(B32)
+
+    def bucket(self, homes):
+        r = self.r
+        if homes and r.random() < 0.9:
+            return r.choice(homes)
+        return r.choice([0, 1, 2, 0x7FFFFFFF, 0x80000000, 0xFFFFFFFE, 0xFFFFFFFF, r.randrange(B32)])
+
+    def val(self, homes, anchors):
+        return (self.bucket(homes) << 32) | self.low(anchors)
+
+    def take_wide(self):
+        if self.wide > 0:
+            self.wide -= 1
+            return True
+        return False
+
+    def rng(self, homes, anchors, allow_wide=True, free_wide=False):
+        """[s,e) from the boundary pool; returns (s, e, cls)"""
+        r = self.r
+        c = r.random()
+        b = self.bucket(homes)
+        if c < 0.08:
+            s = self.val(homes, anchors)
+            return (s, r.choice([s, max(0, s - 1), 0, max(0, s - B32)]), "noop")
+        if c < 0.40:
+            s = self.val(homes, anchors)
+            e = min(MAXV, s + r.choice([1, 2, 3, 10, 100, 4096, 65536, 70000, 200000]))
+            return (s, e, "small")
+        if c < 0.62:
+            # crosses the boundary between bucket b and b+1
+            edge = (b + 1) << 32
+            d1 = r.choice([0, 1, 2, 100, 65536, 70000])
+            d2 = r.choice([0, 1, 2, 100, 65536, 70000])
+            if edge >= U64:
+                return (edge - d1 - 1, MAXV, "cross-top")
+            return (edge - d1, min(MAXV, edge + d2), "cross")
+        if c < 0.70:
+            # up to the last expressible end
+            s = (0xFFFFFFFF << 32) | (B32 - r.choice([1, 2, 3, 100, 70000]))
+            return (s, MAXV, "top")
+        if not allow_wide or not (free_wide or self.take_wide()):
+            s = self.val(homes, anchors)
+            return (s, min(MAXV, s + r.choice([1, 5, 1000])), "small")
+        c = r.random()
+        lo = b << 32
+        hi = min(MAXV, (b + 1) << 32)
+        if c < 0.3:
+            return (lo, hi, "bucket")
+        if c < 0.5:
+            return (lo + self.low(anchors), hi, "suffix")
+        if c < 0.65:
+            return (lo, lo + max(1, self.low(anchors)), "prefix")
+        # 2-3 buckets with a whole bucket in the middle
+        n = r.choice([2, 2, 3])
+        s = lo + r.choice([0, 1, B32 - 1, B32 - 65536, self.low(anchors)])
+        e = min(MAXV, ((b + n) << 32) + r.choice([0, 1, 65536, self.low(anchors)]))
+        return (s, e, "span%d" % n)
+
+    # ------------------------------------------------------------------ building
+    def fill_bucket(self, x, b, anchors):
+        g, r = self.g, self.r
+        base = b << 32
+        sh = r.choices(["single", "sparse", "edges", "range", "ranges", "dense", "chunks", "suffixsmall", "alt"],
+                       [4, 6, 4, 5, 4, 2, 3, 3, 2])[0]
+        if sh == "single":
+            g.emit("add64 %s %d" % (x, base + self.low(anchors)))
+        elif sh == "sparse":
+            n = r.randrange(2, 40)
+            g.emit("addmany64 %s %s" % (x, " ".join(str(base + self.low(anchors)) for _ in range(n))))
+        elif sh == "edges":
+            vs = [v for v in [0, 1, 65535, 65536, 0x7FFFFFFF, 0x80000000, B32 - 2, B32 - 1] if r.random() < 0.6] or [B32 - 1]
+            g.emit("addmany64 %s %s" % (x, " ".join(str(base + v) for v in vs)))
+        elif sh == "range":
+            s = self.low(anchors)
+            g.emit("addr64 %s %d %d" % (x, base + s, min(MAXV, base + min(B32, s + r.choice([2, 100, 5000, 65536, 300000])))))
+        elif sh == "ranges":
+            for _ in range(r.randrange(2, 8)):
+                s = self.low(anchors)
+                g.emit("addr64 %s %d %d" % (x, base + s, min(MAXV, base + min(B32, s + r.choice([1, 3, 50, 4097])))))
+        elif sh == "dense":
+            a = r.choice(anchors) & ~0xFFFF
+            vals = r.sample(range(65536), r.choice([3000, 5000, 9000]))
+            g.emit("addmany64 %s %s" % (x, " ".join(str(base + min(B32 - 1, a + v)) for v in vals)))
+        elif sh == "chunks":
+            # one value in each of several consecutive 16-bit chunks
+            a = (r.choice(anchors) >> 16)
+            vs = [min(B32 - 1, ((a + i) << 16) + r.randrange(65536)) for i in range(r.randrange(2, 12))]
+            g.emit("addmany64 %s %s" % (x, " ".join(str(base + v) for v in vs)))
+        elif sh == "suffixsmall":
+            d = r.choice([1, 2, 100, 70000])
+            g.emit("addr64 %s %d %d" % (x, base + B32 - d, min(MAXV, base + B32)))
+        elif sh == "alt":
+            s = self.low(anchors)
+            g.emit("addmany64 %s %s" % (x, " ".join(str(base + min(B32 - 1, s + 2 * i)) for i in range(r.randrange(10, 300)))))
+        g.count("shape64:" + sh)
+
+    def build(self, x, homes=None, anchors=None):
+        g, r = self.g, self.r
+        if homes is None:
+            homes = self.homes()
+        if anchors is None:
+            anchors = self.anchors()
+        g.emit("new64 %s" % x)
+        for b in homes:
+            if r.random() < 0.85:
+                self.fill_bucket(x, b, anchors)
+        c = r.random()
+        if c < 0.35:
+            g.emit("opt64 %s" % x)
+        if r.random() < 0.2:
+            g.emit("setcow64 %s 1" % x)
+            g.count("build64:cow")
+        return homes, anchors
+
+    # ------------------------------------------------------------------ histories
+    def hist_step(self, x, homes, anchors):
+        g, r = self.g, self.r
+        op = r.choices(["add64", "cadd64", "addint64", "addmany64", "rem64", "crem64", "addr64", "remr64", "flip64",
+                        "flipint64", "clear64", "opt64", "cloneswap", "detach64", "setcow64", "query", "emptybucket",
+                        "sflipcmp"],
+                       [8, 8, 2, 4, 6, 8, 8, 8, 8, 1, 0.3, 2, 2, 1, 1, 6, 2, 3])[0]
+        g.count("histop64:" + op)
+        if op in ("add64", "cadd64", "addint64", "rem64", "crem64"):
+            g.emit("%s %s %d" % (op, x, self.val(homes, anchors)))
+        elif op == "addmany64":
+            n = r.choice([0, 1, 2, 5, 30])
+            c = r.random()
+            if c < 0.4:
+                b = self.bucket(homes)
+                vals = [(b << 32) | self.low(anchors) for _ in range(n)]
+            elif c < 0.7:
+                # alternating buckets: every element starts a new batch
+                vals = [self.val(homes, anchors) for _ in range(n)]
+            else:
+                vals = sorted(self.val(homes, anchors) for _ in range(n))
+            g.emit("addmany64 %s %s" % (x, " ".join(map(str, vals))))
+        elif op in ("addr64", "remr64", "flip64", "flipint64"):
+            s, e, cls = self.rng(homes, anchors, allow_wide=(op != "flipint64"), free_wide=(op == "remr64"))
+            g.count("rng64:%s:%s" % (op, cls))
+            g.emit("%s %s %d %d" % (op, x, s, e))
+        elif op in ("clear64", "opt64", "detach64"):
+            g.emit("%s %s" % (op, x))
+        elif op == "setcow64":
+            g.emit("setcow64 %s %d" % (x, r.randrange(2)))
+        elif op == "cloneswap":
+            y = g.fresh("c")
+            g.emit("%s %s %s" % (r.choice(["clone64", "cowclone64"]), y, x))
+            v = self.val(homes, anchors)
+            g.emit("%s %s %d" % (r.choice(["cadd64", "crem64"]), y, v))
+            g.emit("dig64 %s" % x)
+            g.emit("%s %s %d" % (r.choice(["cadd64", "crem64"]), x, self.val(homes, anchors)))
+            g.emit("dig64 %s" % y)
+            s, e, _ = self.rng(homes, anchors, allow_wide=False)
+            g.emit("%s %s %d %d" % (r.choice(["addr64", "remr64", "flip64"]), y, s, e))
+            g.emit("dig64 %s" % x)
+            g.emit("wf64 %s" % y)
+        elif op == "query":
+            q = r.choice(["card64 %s", "empty64 %s", "wf64 %s", "runs64 %s", "stats64 %s", "ser64 %s"])
+            g.emit(q % x)
+        elif op == "emptybucket":
+            # make a bucket empty in each possible way, then touch its neighbours
+            b = self.bucket(homes)
+            lo, hi = b << 32, min(MAXV, (b + 1) << 32)
+            way = r.choice(["remr", "crem", "flipsame", "remr-span"])
+            g.count("emptybucket:" + way)
+            if way == "remr":
+                g.emit("remr64 %s %d %d" % (x, lo, hi))
+            elif way == "remr-span":
+                g.emit("remr64 %s %d %d" % (x, max(0, lo - r.choice([0, 1, 70000])), min(MAXV, hi + r.choice([0, 1, 70000]))))
+            elif way == "crem":
+                g.emit("remr64 %s %d %d" % (x, lo, hi))
+                v = lo + self.low(anchors)
+                g.emit("cadd64 %s %d" % (x, v))
+                g.emit("crem64 %s %d" % (x, v))
+            else:
+                g.emit("remr64 %s %d %d" % (x, lo, hi))
+                s = lo + self.low(anchors)
+                e = min(hi, s + r.choice([1, 7, 70000]))
+                g.emit("flip64 %s %d %d" % (x, s, e))
+                g.emit("flip64 %s %d %d" % (x, s, e))
+            g.emit("wf64 %s" % x)
+            g.emit("empty64 %s" % x)
+        elif op == "sflipcmp":
+            self.sflip_cmp(x, homes, anchors)
+
+    def sflip_cmp(self, x, homes, anchors):
+        """static Flip against the in-place Flip of a clone"""
+        g, r = self.g, self.r
+        while True:
+            s, e, cls = self.rng(homes, anchors, allow_wide=False)
+            if "sflip" in AVOID and s < e and (s >> 32) != (e >> 32):
+                continue
+            break
+        g.count("sflip64:" + cls)
+        y, z = g.fresh("f"), g.fresh("f")
+        g.emit("sflip64 %s %s %d %d" % (y, x, s, e))
+        g.emit("wf64 %s" % y)
+        g.emit("clone64 %s %s" % (z, x))
+        g.emit("flip64 %s %d %d" % (z, s, e))
+        g.emit("eq64 %s %s" % (y, z))
+        g.emit("alias64 %s %s %s" % (x, y, z))
+        # independence of the result
+        g.emit("cadd64 %s %d" % (y, self.val(homes, anchors)))
+        g.emit("dig64 %s" % x)
+
+    def suite_hist(self, nhist, steps):
+        g, r = self.g, self.r
+        for _ in range(nhist):
+            x = g.fresh("h")
+            if r.random() < 0.6:
+                homes, anchors = self.build(x)
+            else:
+                homes, anchors = self.homes(), self.anchors()
+                g.emit("new64 %s" % x)
+            for _ in range(steps):
+                self.hist_step(x, homes, anchors)
+            g.emit("wf64 %s" % x)
+            g.emit("ser64 %s" % x)
+            g.emit("card64 %s" % x)
+
+    # ------------------------------------------------------------------ algebra
+    def pair(self):
+        g, r = self.g, self.r
+        a, b = g.fresh("a"), g.fresh("a")
+        ha, anchors = self.homes(), self.anchors()
+        c = r.choice(["same", "subset", "shift", "disjoint", "overlap", "empty"])
+        if c == "same":
+            hb = list(ha)
+        elif c == "subset":
+            hb = [k for k in ha if r.random() < 0.6] or ha[:1]
+        elif c == "shift":
+            hb = sorted(set(min(0xFFFFFFFF, k + 1) for k in ha))
+        elif c == "disjoint":
+            hb = sorted(set(k ^ 0x40000000 for k in ha))
+        elif c == "empty":
+            hb = []
+        else:
+            hb = sorted(set(ha[: len(ha) // 2 + 1] + self.homes()))
+        g.count("align64:" + c)
+        self.build(a, ha, anchors)
+        self.build(b, hb, anchors)
+        if r.random() < 0.5:
+            a, b = b, a
+        return a, b, sorted(set(ha) | set(hb)), anchors
+
+    def probe(self, y, others, homes, anchors):
+        """mutating y must not change the others, and vice versa"""
+        g, r = self.g, self.r
+        g.emit("%s %s %d" % (r.choice(["cadd64", "crem64"]), y, self.val(homes, anchors)))
+        s, e, _ = self.rng(homes, anchors, allow_wide=False)
+        g.emit("%s %s %d %d" % (r.choice(["flip64", "addr64", "remr64"]), y, s, e))
+        for o in others:
+            g.emit("dig64 %s" % o)
+        o = r.choice(others)
+        s, e, _ = self.rng(homes, anchors, allow_wide=False)
+        g.emit("%s %s %d %d" % (r.choice(["flip64", "addr64", "remr64"]), o, s, e))
+        g.emit("dig64 %s" % y)
+        g.emit("wf64 %s" % y)
+
+    def suite_alg(self, npairs):
+        g, r = self.g, self.r
+        for _ in range(npairs):
+            a, b, homes, anchors = self.pair()
+            for op in ("and64", "or64", "xor64", "andnot64"):
+                y = g.fresh("y")
+                g.emit("%s %s %s %s" % (op, y, a, b))
+                g.emit("wf64 %s" % y)
+                g.emit("alias64 %s %s %s" % (y, a, b))
+                if r.random() < 0.4:
+                    self.probe(y, [a, b], homes, anchors)
+                y = g.fresh("y")
+                g.emit("%s %s %s %s" % (op, y, b, a))
+            g.emit("andcard64 %s %s" % (a, b))
+            g.emit("orcard64 %s %s" % (a, b))
+            g.emit("isect64 %s %s" % (a, b))
+            g.emit("eq64 %s %s" % (a, b))
+            for op in ("iand64", "ior64", "ixor64", "iandnot64"):
+                for (p, q) in ((a, b), (b, a)):
+                    c = g.fresh("c")
+                    g.emit("%s %s %s" % (r.choice(["clone64", "clone64", "cowclone64"]), c, p))
+                    g.emit("%s %s %s" % (op, c, q))
+                    g.emit("wf64 %s" % c)
+                    g.emit("dig64 %s" % p)
+                    if not (op == "ixor64" and "ixor" in AVOID):
+                        g.emit("alias64 %s %s %s" % (c, p, q))
+                    if r.random() < 0.5 and not (op == "ixor64" and "ixor" in AVOID):
+                        self.probe(c, [p, q], homes, anchors)
+            # self operations
+            c = g.fresh("c")
+            g.emit("clone64 %s %s" % (c, a))
+            ops = ["iand64", "ior64", "iandnot64"] + ([] if "ixor" in AVOID else ["ixor64"])
+            g.emit("%s %s %s" % (r.choice(ops), c, c))
+            g.emit("wf64 %s" % c)
+            y = g.fresh("y")
+            g.emit("%s %s %s %s" % (r.choice(["and64", "or64", "xor64", "andnot64"]), y, a, a))
+            g.emit("andcard64 %s %s" % (a, a))
+            g.emit("orcard64 %s %s" % (b, b))
+            g.emit("isect64 %s %s" % (b, b))
+            g.emit("eq64 %s %s" % (a, a))
+
+    # ------------------------------------------------------------------ queries
+    def suite_query(self, nb, nq):
+        g, r = self.g, self.r
+        for _ in range(nb):
+            x = g.fresh("q")
+            homes, anchors = self.build(x)
+            if r.random() < 0.3:
+                s, e, cls = self.rng(homes, anchors)
+                g.emit("addr64 %s %d %d" % (x, s, e))
+            g.emit("add64 %s %d" % (x, self.val(homes, anchors)))     # never empty: min/max in domain
+            for q in ("card64", "empty64", "min64", "max64", "toarr64", "str64", "wf64", "stats64"):
+                g.emit("%s %s" % (q, x))
+            for _ in range(nq):
+                q = r.choice(["has64", "has64", "hasint64", "rank64", "rank64", "sel64"])
+                if q == "sel64":
+                    g.emit("sel64 %s %d" % (x, r.choice([0, 1, 2, 10, 100, 4095, 4096, 65535, 65536, r.randrange(1 << 20),
+                                                           B32 - 1, B32, r.randrange(U64), MAXV])))
+                else:
+                    c = r.random()
+                    v = self.val(homes, anchors) if c < 0.8 else r.choice([0, MAXV, B32 - 1, B32, r.randrange(U64)])
+                    g.emit("%s %s %d" % (q, x, v))
+            g.emit("dig64 %s" % x)
+            y = g.fresh("q")
+            g.emit("clone64 %s %s" % (y, x))
+            g.emit("eq64 %s %s" % (x, y))
+            g.emit("opt64 %s" % y)
+            g.emit("eq64 %s %s" % (x, y))
+            g.emit("%s %s %d" % (r.choice(["cadd64", "crem64"]), y, self.val(homes, anchors)))
+            g.emit("eq64 %s %s" % (x, y))
+            g.emit("eq64 %s %s" % (y, x))
+        g.emit("new64 e0")
+        for q in ("card64 e0", "empty64 e0", "sel64 e0 0", "rank64 e0 5", "rank64 e0 %d" % MAXV, "toarr64 e0",
+                  "str64 e0", "has64 e0 0", "wf64 e0", "ser64 e0", "hex64 e0", "stats64 e0"):
+            g.emit(q)
+        # the two ends of the universe
+        g.emit("of64 e1 0 %d" % MAXV)
+        for q in ("card64 e1", "min64 e1", "max64 e1", "rank64 e1 0", "rank64 e1 %d" % MAXV, "rank64 e1 %d" % (MAXV - 1),
+                  "sel64 e1 1", "sel64 e1 2", "has64 e1 %d" % MAXV, "hasint64 e1 %d" % MAXV, "toarr64 e1", "wf64 e1",
+                  "hex64 e1"):
+            g.emit(q)
+        g.emit("addint64 e1 %d" % (MAXV - 1))
+        g.emit("crem64 e1 %d" % MAXV)
+        g.emit("max64 e1")
+
+    # ------------------------------------------------------------------ iterators
+    def suite_iter(self, nb):
+        g, r = self.g, self.r
+        for _ in range(nb):
+            x = g.fresh("t")
+            homes, anchors = self.build(x)
+            if r.random() < 0.15:
+                g.emit("clear64 %s" % x)
+            i = g.fresh("i")
+            g.emit("it64 %s %s" % (i, x))
+            for _ in range(r.randrange(5, 40)):
+                op = r.choices(["next64", "peek64", "hasnext64", "adv64", "drain64"], [6, 4, 3, 5, 2])[0]
+                if op == "adv64":
+                    c = r.random()
+                    if c < 0.6:
+                        m = self.val(homes, anchors)
+                    elif c < 0.8:
+                        b = self.bucket(homes)
+                        m = r.choice([b << 32, ((b + 1) << 32) - 1, min(MAXV, (b + 1) << 32)])
+                    else:
+                        m = r.choice([0, MAXV, r.randrange(U64)])
+                    g.emit("adv64 %s %d" % (i, m))
+                elif op == "drain64":
+                    g.emit("drain64 %s %d" % (i, r.choice([0, 1, 3, 50, 5000])))
+                else:
+                    g.emit("%s %s" % (op, i))
+            g.emit("drain64 %s 100000" % i)
+            g.emit("hasnext64 %s" % i)
+            g.emit("next64 %s" % i)
+            g.emit("adv64 %s %d" % (i, self.val(homes, anchors)))
+            # reverse
+            i = g.fresh("i")
+            g.emit("rit64 %s %s" % (i, x))
+            for _ in range(r.randrange(3, 20)):
+                op = r.choices(["next64", "hasnext64", "drain64"], [6, 2, 2])[0]
+                if op == "drain64":
+                    g.emit("drain64 %s %d" % (i, r.choice([0, 1, 3, 50, 5000])))
+                else:
+                    g.emit("%s %s" % (op, i))
+            g.emit("drain64 %s 100000" % i)
+            g.emit("hasnext64 %s" % i)
+            g.emit("next64 %s" % i)
+            # batch
+            i = g.fresh("i")
+            g.emit("mit64 %s %s" % (i, x))
+            for _ in range(r.randrange(3, 15)):
+                g.emit("many64 %s %d" % (i, r.choice([0, 1, 2, 3, 7, 64, 1000, 4096, 70000])))
+            g.emit("many64 %s 200000" % i)
+            g.emit("many64 %s 5" % i)
+            # re-Initialize used iterator objects on another bitmap (sometimes an empty one)
+            x2 = g.fresh("t")
+            if r.random() < 0.3:
+                g.emit("new64 %s" % x2)
+            else:
+                self.build(x2, homes, anchors)
+            for kind in ("it64", "rit64", "mit64"):
+                j = g.fresh("i")
+                g.emit("%s %s %s" % (kind, j, x))
+                if kind == "mit64":
+                    g.emit("many64 %s %d" % (j, r.choice([0, 1, 5, 100000])))
+                    g.emit("reit64 %s %s" % (j, x2))
+                    g.emit("many64 %s 3" % j)
+                    g.emit("many64 %s 100000" % j)
+                else:
+                    g.emit("drain64 %s %d" % (j, r.choice([0, 1, 5, 100000])))
+                    g.emit("reit64 %s %s" % (j, x2))
+                    g.emit("hasnext64 %s" % j)
+                    g.emit("next64 %s" % j)
+                    if kind == "it64":
+                        g.emit("peek64 %s" % j)
+                        g.emit("adv64 %s %d" % (j, self.val(homes, anchors)))
+                    g.emit("drain64 %s 100000" % j)
+            g.emit("seq64 %s fwd %d" % (x, r.choice([0, 1, 5, 100000])))
+            g.emit("seq64 %s rev %d" % (x, r.choice([0, 1, 5, 100000])))
+            g.emit("dig64 %s" % x)
+
+    # ------------------------------------------------------------------ aggregates
+    def suite_agg(self, n):
+        g, r = self.g, self.r
+        for _ in range(n):
+            homes, anchors = self.homes(), self.anchors()
+            k = r.choice([0, 1, 2, 2, 3, 4, 6])
+            names = []
+            for j in range(k):
+                x = g.fresh("g")
+                c = r.random()
+                if c < 0.2:
+                    g.emit("new64 %s" % x)                       # empty operand
+                elif c < 0.5:
+                    self.build(x, [r.choice(homes)], anchors)    # single bucket (ParOr's keyRange==1 path)
+                else:
+                    self.build(x, homes, anchors)
+                names.append(x)
+            if names and r.random() < 0.25:
+                names.append(r.choice(names))                     # the same bitmap twice
+            r.shuffle(names)
+            for op in ("fastor64", "fastand64"):
+                y = g.fresh("y")
+                g.emit("%s %s %s" % (op, y, " ".join(names)))
+                g.emit("wf64 %s" % y)
+                g.emit("alias64 %s %s" % (y, " ".join(sorted(set(names)))))
+                if names and r.random() < 0.6:
+                    self.probe(y, names, homes, anchors)
+            pn = list(names)
+            if "paror" in AVOID:
+                # restricted use: at least two operands, none empty, nothing mutated afterwards
+                if len(pn) < 2:
+                    continue
+                for x in set(pn):
+                    g.emit("add64 %s %d" % (x, self.val(homes, anchors)))
+                y = g.fresh("y")
+                g.emit("paror64 %s %d %s" % (y, r.choice([0, 1, 2, 3, 8]), " ".join(pn)))
+                g.emit("wf64 %s" % y)
+                continue
+            y = g.fresh("y")
+            g.emit("paror64 %s %d %s" % (y, r.choice([0, 1, 2, 3, 8]), " ".join(pn)))
+            g.emit("wf64 %s" % y)
+            if pn:
+                g.emit("alias64 %s %s" % (y, " ".join(sorted(set(pn)))))
+                self.probe(y, pn, homes, anchors)
+        # as64
+        for _ in range(max(2, n // 3)):
+            x = g.fresh("w")
+            g.emit("new %s" % x)
+            c = r.random()
+            if c < 0.25 and "as64e" not in AVOID:
+                pass
+            elif c < 0.6:
+                g.emit("addmany %s %s" % (x, " ".join(str(r.choice(LOWS)) for _ in range(r.randrange(1, 9)))))
+            else:
+                g.emit("addr %s %d %d" % (x, r.randrange(0, 1 << 20), r.randrange(1 << 20, 1 << 22)))
+            y = g.fresh("y")
+            g.emit("as64 %s %s" % (y, x))
+            for q in ("card64", "empty64", "wf64", "dump64"):
+                g.emit("%s %s" % (q, y))
+            g.emit("new64 ee")
+            g.emit("eq64 %s ee" % y)
+            g.emit("cadd64 %s %d" % (y, r.choice([5, B32 + 5])))
+            g.emit("dig %s" % x)
+
+    # ------------------------------------------------------------------ whole buckets
+    def suite_wide(self, n):
+        g, r = self.g, self.r
+        for _ in range(n):
+            x = g.fresh("v")
+            b = r.choice([0, 1, 0x7FFFFFFE, 0xFFFFFFFD])
+            anchors = self.anchors()
+            homes = [b, b + 1, b + 2]
+            g.emit("new64 %s" % x)
+            s = (b << 32) + r.choice([0, 5, B32 - 3, self.low(anchors)])
+            e = ((b + 2) << 32) + r.choice([0, 1, 3, 65536, self.low(anchors)])
+            g.emit("addr64 %s %d %d" % (x, s, e))
+            g.count("wide64:addr-span3")
+            g.emit("card64 %s" % x)
+            g.emit("wf64 %s" % x)
+            g.emit("min64 %s" % x)
+            g.emit("max64 %s" % x)
+            g.emit("rank64 %s %d" % (x, ((b + 1) << 32) + self.low(anchors)))
+            g.emit("sel64 %s %d" % (x, B32 + self.low(anchors)))
+            g.emit("toarr64 %s" % x)
+            i = g.fresh("i")
+            g.emit("it64 %s %s" % (i, x))
+            g.emit("adv64 %s %d" % (i, ((b + 1) << 32) - 2))
+            g.emit("drain64 %s 5" % i)
+            g.emit("adv64 %s %d" % (i, ((b + 2) << 32) - 1))
+            g.emit("drain64 %s 5" % i)
+            i = g.fresh("i")
+            g.emit("rit64 %s %s" % (i, x))
+            g.emit("drain64 %s 7" % i)
+            c = r.choice(["remr-mid", "remr-all", "flip-mid", "crem", "xor-self-clone"])
+            g.count("wide64:" + c)
+            if c == "remr-mid":
+                g.emit("remr64 %s %d %d" % (x, ((b + 1) << 32) - r.choice([0, 1, 2]), ((b + 2) << 32) + r.choice([0, 1])))
+            elif c == "remr-all":
+                g.emit("remr64 %s %d %d" % (x, s, e))
+                g.emit("empty64 %s" % x)
+            elif c == "flip-mid":
+                g.emit("flip64 %s %d %d" % (x, (b + 1) << 32, (b + 2) << 32))
+            elif c == "crem":
+                g.emit("crem64 %s %d" % (x, ((b + 1) << 32) + self.low(anchors)))
+                g.emit("cadd64 %s %d" % (x, ((b + 1) << 32) + self.low(anchors)))
+            else:
+                y = g.fresh("v")
+                g.emit("clone64 %s %s" % (y, x))
+                g.emit("rem64 %s %d" % (y, ((b + 1) << 32) + self.low(anchors)))
+                z = g.fresh("v")
+                g.emit("xor64 %s %s %s" % (z, x, y))
+                g.emit("andnot64 %s %s %s" % (z, x, y))
+                g.emit("card64 %s" % z)
+            g.emit("wf64 %s" % x)
+            g.emit("card64 %s" % x)
+            g.emit("ser64 %s" % x)
+            if "sflip" not in AVOID and r.random() < 0.5:
+                y = g.fresh("v")
+                g.emit("sflip64 %s %s %d %d" % (y, x, s, e))
+                g.emit("wf64 %s" % y)
+
+
+@suite("r64")
+def _r64(g, scale):
+    h = R(g, scale)
+    if "runsize" in AVOID:
+        g.emit("lenient64 runsize")
+    h.suite_hist(int(8 * scale), 50)
+    h.suite_alg(int(8 * scale))
+    h.suite_query(int(8 * scale), 30)
+    h.suite_iter(int(8 * scale))
+    h.suite_agg(int(10 * scale))
+    h.suite_wide(max(1, int(3 * scale)))
+
+
+# ====================================================================================================== ser64
+
+def py_inner(vals):
+    """32-bit portable stream (cookie 12346, array containers only) for a sorted list of distinct 32-bit values"""
+    chunks = {}
+    for v in vals:
+        chunks.setdefault(v >> 16, []).append(v & 0xFFFF)
+    keys = sorted(chunks)
+    assert all(len(chunks[k]) <= 4096 for k in keys)
+    out = struct.pack("<II", 12346, len(keys))
+    for k in keys:
+        out += struct.pack("<HH", k, len(chunks[k]) - 1)
+    off = 8 + 8 * len(keys)
+    for k in keys:
+        out += struct.pack("<I", off)
+        off += 2 * len(chunks[k])
+    for k in keys:
+        out += b"".join(struct.pack("<H", v) for v in sorted(chunks[k]))
+    return out
+
+
+def py_stream(buckets, count=None):
+    """buckets: list of (key, sorted low values) in the order to be written"""
+    out = struct.pack("<Q", len(buckets) if count is None else count)
+    for k, vals in buckets:
+        out += struct.pack("<I", k) + py_inner(vals)
+    return out
+
+
+ENTRIES = ["readfrom", "fromunsafe", "unmarshal", "base64", "readfrom1"]
+
+
+def suite_ser(g, scale):
+    h = R(g, scale)
+    if "runsize" in AVOID:
+        g.emit("lenient64 runsize")
+    r = g.r
+    # 1. round trips
+    for _ in range(int(14 * scale)):
+        x = g.fresh("s")
+        homes, anchors = h.build(x)
+        if r.random() < 0.15 and h.take_wide():
+            b = h.bucket(homes)
+            g.emit("addr64 %s %d %d" % (x, b << 32, min(MAXV, (b + 1) << 32)))
+            g.count("ser64:fullbucket")
+        if r.random() < 0.1:
+            g.emit("clear64 %s" % x)
+        g.emit("ser64 %s" % x)
+        g.emit("wf64 %s" % x)
+        ys = []
+        for entry in ENTRIES:
+            y = g.fresh("d")
+            opts = ""
+            if r.random() < 0.5:
+                opts += " extra=%d" % r.choice([1, 3, 8, 100])
+            g.emit("rd64 %s %s %s%s" % (y, entry, x, opts))
+            g.emit("eq64 %s %s" % (y, x))
+            ys.append(y)
+        # decode into a previously used bitmap (bigger, smaller, cow)
+        y = r.choice(ys)
+        z = g.fresh("s")
+        h.build(z)
+        g.emit("rd64 %s %s %s reuse" % (z, r.choice(ENTRIES), x))
+        g.emit("eq64 %s %s" % (z, x))
+        g.emit("rd64 %s %s %s reuse" % (y, r.choice(ENTRIES), z))
+        g.emit("dig64 %s" % x)
+        # the decoded bitmap is an ordinary mutable bitmap, independent of its source
+        y = r.choice(ys)
+        g.emit("cadd64 %s %d" % (y, h.val(homes, anchors)))
+        s, e, _ = h.rng(homes, anchors, allow_wide=False)
+        g.emit("flip64 %s %d %d" % (y, s, e))
+        g.emit("wf64 %s" % y)
+        g.emit("dig64 %s" % x)
+        g.emit("rd64 %s %s %s" % (g.fresh("d"), r.choice(ENTRIES), y))
+        # a bitmap decoded without copy must never write into the caller's buffer
+        u = g.fresh("u")
+        g.emit("rd64 %s fromunsafe %s" % (u, x))
+        for _ in range(r.randrange(3, 10)):
+            c = r.random()
+            if c < 0.3:
+                g.emit("%s %s %d" % (r.choice(["cadd64", "crem64"]), u, h.val(homes, anchors)))
+            elif c < 0.7:
+                s, e, _ = h.rng(homes, anchors, allow_wide=False)
+                g.emit("%s %s %d %d" % (r.choice(["addr64", "remr64", "flip64"]), u, s, e))
+            elif c < 0.8:
+                g.emit("opt64 %s" % u)
+            else:
+                g.emit("%s %s %s" % (r.choice(["iand64", "ior64", "iandnot64"] + ([] if "ixor" in AVOID else ["ixor64"])), u, z))
+            g.emit("bufchk64 %s" % u)
+        g.emit("wf64 %s" % u)
+        g.emit("dig64 %s" % x)
+    # 2. small streams: spec reading of the bytes, truncation sweep, header corruption
+    for _ in range(int(10 * scale)):
+        x = g.fresh("s")
+        homes, anchors = h.homes(), h.anchors()
+        g.emit("new64 %s" % x)
+        nb = 0
+        for b in homes:
+            if r.random() < 0.85:
+                nb += 1
+                sh = r.choice(["single", "few", "range", "bitmapc"])
+                base = b << 32
+                if sh == "single":
+                    g.emit("add64 %s %d" % (x, base + h.low(anchors)))
+                elif sh == "few":
+                    g.emit("addmany64 %s %s" % (x, " ".join(str(base + h.low(anchors)) for _ in range(r.randrange(2, 30)))))
+                elif sh == "range":
+                    s = h.low(anchors)
+                    g.emit("addr64 %s %d %d" % (x, base + s, min(MAXV, base + min(B32, s + r.choice([2, 300, 70000])))))
+                else:
+                    a = r.choice(anchors) & ~0xFFFF
+                    g.emit("addmany64 %s %s" % (x, " ".join(str(base + min(B32 - 1, a + v)) for v in r.sample(range(65536), 4200))))
+                g.count("small64:" + sh)
+        if r.random() < 0.4:
+            g.emit("opt64 %s" % x)
+        g.emit("ser64 %s" % x)
+        g.emit("hex64 %s" % x)
+        for entry in ENTRIES:
+            g.emit("trunc64 %s %s" % (x, entry))
+        for _ in range(12):
+            entry = r.choice(ENTRIES)
+            f = r.choice(["count", "count", "count", "key", "key", "cookie", "cookie", "isize", "byte"])
+            if f == "count":
+                small = [0, 1, nb - 1, nb + 1, nb + 2, 255, 65536, 1 << 20]
+                big = [1 << 24, 1 << 28, 1 << 31, 1 << 32, (1 << 32) + 1, 1 << 33, 1 << 40, 1 << 46, 1 << 47,
+                       1 << 56, 1 << 62, 1 << 63, (1 << 63) + 1, MAXV, MAXV - 1]
+                v = r.choice(small) if ("count" in AVOID or r.random() < 0.4) else r.choice(big)
+                if v < 0:
+                    v = 0
+                g.count("cor64:count:%s" % ("small" if v <= 1 << 20 else "big"))
+                g.emit("cor64 %s %s count %d" % (x, entry, v))
+            elif f == "key":
+                i = r.randrange(0, max(1, nb))
+                v = r.choice([0, 1, 0xFFFFFFFF, 0x80000000, r.randrange(B32)] + [k for k in homes])
+                g.emit("cor64 %s %s key:%d %d" % (x, entry, i, v))
+            elif f == "cookie":
+                i = r.randrange(0, max(1, nb))
+                v = r.choice([0, 12346, 12347, 12345, 12348, 0xFFFF303B, 0x0001303B, 0x0003303B, 0x7FFF303B,
+                              0xFFFFFFFF, r.randrange(B32), (r.randrange(65536) << 16) | 12347])
+                g.emit("cor64 %s %s cookie:%d %d" % (x, entry, i, v))
+            elif f == "isize":
+                i = r.randrange(0, max(1, nb))
+                v = r.choice([0, 1, 2, 65535, 65536, 65537, 0xFFFFFFFF, r.randrange(B32)])
+                g.emit("cor64 %s %s isize:%d %d" % (x, entry, i, v))
+            else:
+                off = r.randrange(0, 200)
+                if "count" in AVOID and 1 <= off < 8:
+                    off += 8
+                g.emit("cor64 %s %s byte:%d %d" % (x, entry, off, r.randrange(256)))
+            g.count("cor64:" + f)
+        g.emit("dig64 %s" % x)
+    # 3. streams written by the generator (array containers only): the Lean side decodes them with the spec reading
+    for _ in range(int(16 * scale)):
+        homes = sorted(set(h.homes()))
+        anchors = h.anchors()
+        bks = []
+        for b in homes:
+            vals = sorted(set(h.low(anchors) for _ in range(r.randrange(1, 20))))
+            bks.append((b, vals))
+        kind = r.choice(["valid", "valid", "valid+trail", "dupkey", "desckey", "emptybucket", "countless", "countmore",
+                         "cut", "zero", "bytes"])
+        if kind in ("dupkey", "desckey") and len(bks) < 2:
+            k0 = bks[0][0]
+            bks.append((k0 + 1 if k0 < 0xFFFFFFFF else k0 - 1, [7]))
+            bks.sort()
+        data = py_stream(bks)
+        if kind == "valid+trail":
+            data += bytes(r.randrange(256) for _ in range(r.choice([1, 4, 12])))
+        elif kind == "dupkey":
+            bks[1] = (bks[0][0], bks[1][1])
+            data = py_stream(bks)
+        elif kind == "desckey":
+            bks[0], bks[1] = bks[1], bks[0]
+            data = py_stream(bks)
+        elif kind == "emptybucket":
+            i = r.randrange(len(bks))
+            data = struct.pack("<Q", len(bks))
+            for j, (k, vals) in enumerate(bks):
+                data += struct.pack("<I", k) + (struct.pack("<II", 12346, 0) if j == i else py_inner(vals))
+        elif kind == "countless":
+            data = py_stream(bks, count=len(bks) - 1)
+        elif kind == "countmore":
+            data = py_stream(bks, count=len(bks) + r.choice([1, 2, 1000]))
+        elif kind == "cut":
+            data = data[: r.randrange(0, len(data))]
+        elif kind == "zero":
+            data = bytes(r.choice([0, 7, 8, 9, 16]))
+        elif kind == "bytes":
+            data = bytearray(data)
+            for _ in range(r.choice([1, 2, 5])):
+                data[r.randrange(len(data))] = r.randrange(256)
+            if "count" in AVOID:
+                data[1:8] = bytes(7)
+            data = bytes(data)
+        g.count("dec64:" + kind)
+        y = g.fresh("p")
+        entry = r.choice(ENTRIES)
+        g.emit("dec64 %s %s %s" % (y, entry, data.hex() if data else "-"))
+        # when y was defined it behaves like any bitmap
+        g.emit("card64 %s" % y)
+        g.emit("cadd64 %s %d" % (y, h.val(homes, anchors)))
+        g.emit("wf64 %s" % y)
+        g.emit("rd64 %s readfrom %s" % (g.fresh("d"), y))
+
+
+@suite("ser64")
+def _ser64(g, scale):
+    suite_ser(g, scale)
